@@ -23,6 +23,11 @@ def run_c11(ctx: Ctx, M: AnnotateModel):
         if isinstance(n, ast.Compare) and isinstance(n.left, ast.Name) and n.left.id in params and len(n.comparators) == 1 \
                 and isinstance(n.comparators[0], ast.Constant) and n.comparators[0].value in ("skip", "wrap", "unchecked"):
             MODE = n.left.id
+    if MODE is not None:
+        reb = [x for x in walk_local(f) if isinstance(x, (ast.Assign, ast.AugAssign, ast.AnnAssign, ast.NamedExpr, ast.For, ast.With)) and MODE in assigned_names(x)]
+        ctx.ob("C11-R1", f"{q}/{MODE}:callers-choice", not reb,
+               f"the tag-handling mode is the caller's and is never reassigned ({[norm(x)[:50] for x in reb]}): a shortcut that downgrades it (e.g. to "
+               "'unchecked' after a whole-batch test) switches the per-span check off for spans that need it", node=reb[0] if reb else f, mod=m)
     ctx.ob("C11-STRUCT", f"{q}/mode-parameter", MODE is not None, "tag-handling mode parameter located", node=f, mod=m, nontrivial=False)
     if MODE is None:
         return
